@@ -321,11 +321,31 @@ func C06Child(args []string) int {
 		for i := 0; i < n; i++ {
 			en := names[r.IntN(len(names))]
 			var s string
-			switch r.IntN(4) {
+			if l := gen.AnyNewLit(r); l != "" && r.IntN(4) == 0 {
+				// a literal that a change introduced into the sources, glued after / before / around / between
+				// well-formed versions and ranges; used as is
+				v1, v2 := gen.One(en, r), gen.One(en, r)
+				s = []string{v1 + l, l + v1, v1 + l + v2, l + v1 + gen.AnyNewLit(r), gen.RangeOne(en, r) + l, v1 + " " + l + " " + v2, l}[r.IntN(7)]
+				st.callAll(s, true)
+				st.counters["hostile_inputs"]++
+				st.counters["hostile_new_literal_glue"]++
+				continue
+			}
+			switch r.IntN(5) {
 			case 0:
 				s = gen.One(en, r)
 			case 1:
 				s = gen.RangeOne(en, r)
+			case 4:
+				// the punctuation literals of the ecosystem's own sources before / after / around a well-formed version
+				// (operators and wildcard suffixes no table lists yet); used as is, and mutated half of the time
+				s = gen.SymRange(en, r, func() string { return gen.One(en, r) })
+				st.callAll(s, true)
+				st.counters["hostile_inputs"]++
+				st.counters["hostile_source_literal_operator_ranges"]++
+				if r.IntN(2) == 0 {
+					continue
+				}
 			case 2:
 				// token-level damage; used as is half of the time (no byte-level mutation on top)
 				s = gen.HostileRange(en, r)
